@@ -10,8 +10,12 @@
    Not covered: libfuncs outside the list; VmRun.v is a hand model of cairo-vm (flat addresses). *)
 From Vmx Require Import VmRun.
 From Spec Require Import Int Ops.
-From Libfuncs Require Import Stmt CStmt UAddSubC UAddSub.
-From GenC03 Require Import W_u8_overflowing_add W_u8_overflowing_sub.
+From Libfuncs Require Import Stmt CStmt C8a C8b1 C8b2 C8b3 C8b4 C8c UAddSub Simple Mul DivMod IAdd ISub Sqrt.
+From GenC03 Require Import W_i8_eq W_i8_overflowing_add W_i8_overflowing_sub W_i8_to_felt252
+  W_i8_wide_mul W_u8_eq W_u8_is_zero W_u8_overflowing_add W_u8_overflowing_sub W_u8_safe_divmod
+  W_u8_sqrt W_u8_to_felt252 W_u8_wide_mul W_upcast_i8_i128 W_upcast_i8_i16 W_upcast_i8_i32
+  W_upcast_i8_i64 W_upcast_u8_i128 W_upcast_u8_i16 W_upcast_u8_i32 W_upcast_u8_i64
+  W_upcast_u8_u128 W_upcast_u8_u16 W_upcast_u8_u32 W_upcast_u8_u64.
 
 Theorem C06_u8_overflowing_add_sound : uarith_sound uadd 8 code_u8_overflowing_add entry_u8_overflowing_add.
 Proof. exact u8_overflowing_add_sound. Qed.
@@ -21,29 +25,117 @@ Theorem C06_u8_overflowing_sub_sound : uarith_sound usub 8 code_u8_overflowing_s
 Proof. exact u8_overflowing_sub_sound. Qed.
 Theorem C06_u8_overflowing_sub_complete : uarith_complete usub 8 code_u8_overflowing_sub entry_u8_overflowing_sub.
 Proof. exact u8_overflowing_sub_complete. Qed.
+Theorem C06_u8_eq_sound : eq_sound code_u8_eq entry_u8_eq.
+Proof. exact u8_eq_sound. Qed.
+Theorem C06_u8_eq_complete : ueq_complete 8 code_u8_eq entry_u8_eq.
+Proof. exact u8_eq_complete. Qed.
+Theorem C06_u8_wide_mul_sound : uwide_mul_sound 8 code_u8_wide_mul entry_u8_wide_mul.
+Proof. exact u8_wide_mul_sound. Qed.
+Theorem C06_u8_wide_mul_complete : uwide_mul_complete 8 code_u8_wide_mul entry_u8_wide_mul.
+Proof. exact u8_wide_mul_complete. Qed.
+Theorem C06_u8_safe_divmod_sound : udivmod_sound 8 3 code_u8_safe_divmod entry_u8_safe_divmod.
+Proof. exact u8_safe_divmod_sound. Qed.
+Theorem C06_u8_safe_divmod_complete : udivmod_complete 8 3 code_u8_safe_divmod entry_u8_safe_divmod.
+Proof. exact u8_safe_divmod_complete. Qed.
+Theorem C06_i8_overflowing_add_sound : iarith_sound Z.add 8 2 1 code_i8_overflowing_add entry_i8_overflowing_add.
+Proof. exact i8_overflowing_add_sound. Qed.
+Theorem C06_i8_overflowing_add_complete : iarith_complete Z.add 8 2 1 code_i8_overflowing_add entry_i8_overflowing_add.
+Proof. exact i8_overflowing_add_complete. Qed.
+Theorem C06_i8_overflowing_sub_sound : iarith_sound Z.sub 8 2 1 code_i8_overflowing_sub entry_i8_overflowing_sub.
+Proof. exact i8_overflowing_sub_sound. Qed.
+Theorem C06_i8_overflowing_sub_complete : iarith_complete Z.sub 8 2 1 code_i8_overflowing_sub entry_i8_overflowing_sub.
+Proof. exact i8_overflowing_sub_complete. Qed.
+Theorem C06_i8_eq_sound : eq_sound code_i8_eq entry_i8_eq.
+Proof. exact i8_eq_sound. Qed.
+Theorem C06_i8_eq_complete : ieq_complete 8 code_i8_eq entry_i8_eq.
+Proof. exact i8_eq_complete. Qed.
+Theorem C06_i8_wide_mul_sound : iwide_mul_sound 8 code_i8_wide_mul entry_i8_wide_mul.
+Proof. exact i8_wide_mul_sound. Qed.
+Theorem C06_i8_wide_mul_complete : iwide_mul_complete 8 code_i8_wide_mul entry_i8_wide_mul.
+Proof. exact i8_wide_mul_complete. Qed.
+Theorem C06_u8_is_zero_sound : is_zero_sound code_u8_is_zero entry_u8_is_zero.
+Proof. exact u8_is_zero_sound. Qed.
+Theorem C06_u8_is_zero_complete : is_zero_complete 8 code_u8_is_zero entry_u8_is_zero.
+Proof. exact u8_is_zero_complete. Qed.
+Theorem C06_u8_to_felt252_sound : ident_sound code_u8_to_felt252 entry_u8_to_felt252.
+Proof. exact u8_to_felt252_sound. Qed.
+Theorem C06_u8_to_felt252_complete : uident_complete 8 code_u8_to_felt252 entry_u8_to_felt252.
+Proof. exact u8_to_felt252_complete. Qed.
+Theorem C06_u8_sqrt_sound : usqrt_sound 8 code_u8_sqrt entry_u8_sqrt.
+Proof. exact u8_sqrt_sound. Qed.
+Theorem C06_u8_sqrt_complete : usqrt_complete 8 code_u8_sqrt entry_u8_sqrt.
+Proof. exact u8_sqrt_complete. Qed.
+Theorem C06_i8_to_felt252_sound : ident_sound code_i8_to_felt252 entry_i8_to_felt252.
+Proof. exact i8_to_felt252_sound. Qed.
+Theorem C06_i8_to_felt252_complete : iident_complete 8 code_i8_to_felt252 entry_i8_to_felt252.
+Proof. exact i8_to_felt252_complete. Qed.
+Theorem C06_upcast_i8_i128_sound : ident_sound code_upcast_i8_i128 entry_upcast_i8_i128.
+Proof. exact upcast_i8_i128_sound. Qed.
+Theorem C06_upcast_i8_i128_complete : iident_complete 8 code_upcast_i8_i128 entry_upcast_i8_i128.
+Proof. exact upcast_i8_i128_complete. Qed.
+Theorem C06_upcast_i8_i16_sound : ident_sound code_upcast_i8_i16 entry_upcast_i8_i16.
+Proof. exact upcast_i8_i16_sound. Qed.
+Theorem C06_upcast_i8_i16_complete : iident_complete 8 code_upcast_i8_i16 entry_upcast_i8_i16.
+Proof. exact upcast_i8_i16_complete. Qed.
+Theorem C06_upcast_i8_i32_sound : ident_sound code_upcast_i8_i32 entry_upcast_i8_i32.
+Proof. exact upcast_i8_i32_sound. Qed.
+Theorem C06_upcast_i8_i32_complete : iident_complete 8 code_upcast_i8_i32 entry_upcast_i8_i32.
+Proof. exact upcast_i8_i32_complete. Qed.
+Theorem C06_upcast_i8_i64_sound : ident_sound code_upcast_i8_i64 entry_upcast_i8_i64.
+Proof. exact upcast_i8_i64_sound. Qed.
+Theorem C06_upcast_i8_i64_complete : iident_complete 8 code_upcast_i8_i64 entry_upcast_i8_i64.
+Proof. exact upcast_i8_i64_complete. Qed.
+Theorem C06_upcast_u8_i128_sound : ident_sound code_upcast_u8_i128 entry_upcast_u8_i128.
+Proof. exact upcast_u8_i128_sound. Qed.
+Theorem C06_upcast_u8_i128_complete : uident_complete 8 code_upcast_u8_i128 entry_upcast_u8_i128.
+Proof. exact upcast_u8_i128_complete. Qed.
+Theorem C06_upcast_u8_i16_sound : ident_sound code_upcast_u8_i16 entry_upcast_u8_i16.
+Proof. exact upcast_u8_i16_sound. Qed.
+Theorem C06_upcast_u8_i16_complete : uident_complete 8 code_upcast_u8_i16 entry_upcast_u8_i16.
+Proof. exact upcast_u8_i16_complete. Qed.
+Theorem C06_upcast_u8_i32_sound : ident_sound code_upcast_u8_i32 entry_upcast_u8_i32.
+Proof. exact upcast_u8_i32_sound. Qed.
+Theorem C06_upcast_u8_i32_complete : uident_complete 8 code_upcast_u8_i32 entry_upcast_u8_i32.
+Proof. exact upcast_u8_i32_complete. Qed.
+Theorem C06_upcast_u8_i64_sound : ident_sound code_upcast_u8_i64 entry_upcast_u8_i64.
+Proof. exact upcast_u8_i64_sound. Qed.
+Theorem C06_upcast_u8_i64_complete : uident_complete 8 code_upcast_u8_i64 entry_upcast_u8_i64.
+Proof. exact upcast_u8_i64_complete. Qed.
+Theorem C06_upcast_u8_u128_sound : ident_sound code_upcast_u8_u128 entry_upcast_u8_u128.
+Proof. exact upcast_u8_u128_sound. Qed.
+Theorem C06_upcast_u8_u128_complete : uident_complete 8 code_upcast_u8_u128 entry_upcast_u8_u128.
+Proof. exact upcast_u8_u128_complete. Qed.
+Theorem C06_upcast_u8_u16_sound : ident_sound code_upcast_u8_u16 entry_upcast_u8_u16.
+Proof. exact upcast_u8_u16_sound. Qed.
+Theorem C06_upcast_u8_u16_complete : uident_complete 8 code_upcast_u8_u16 entry_upcast_u8_u16.
+Proof. exact upcast_u8_u16_complete. Qed.
+Theorem C06_upcast_u8_u32_sound : ident_sound code_upcast_u8_u32 entry_upcast_u8_u32.
+Proof. exact upcast_u8_u32_sound. Qed.
+Theorem C06_upcast_u8_u32_complete : uident_complete 8 code_upcast_u8_u32 entry_upcast_u8_u32.
+Proof. exact upcast_u8_u32_complete. Qed.
+Theorem C06_upcast_u8_u64_sound : ident_sound code_upcast_u8_u64 entry_upcast_u8_u64.
+Proof. exact upcast_u8_u64_sound. Qed.
+Theorem C06_upcast_u8_u64_complete : uident_complete 8 code_upcast_u8_u64 entry_upcast_u8_u64.
+Proof. exact upcast_u8_u64_complete. Qed.
 
 (* the completeness statement unfolded once *)
 Theorem C06_u8_overflowing_add_complete_unfolded : forall a b,
   0 <= a < 2 ^ 8 -> 0 <= b < 2 ^ 8 ->
-  exists s' m',
-    vm_run CFG (honest CFG) 0 code_u8_overflowing_add 64 0
-           (init_st entry_u8_overflowing_add) (init_mem [RC0; a; b]) = Ok (s', m') /\
-    lookup (ap s' - 3) m' = Some (RC0 + 1) /\
-    (if a + b <? 2 ^ 8
-     then lookup (ap s' - 2) m' = Some 0 /\ lookup (ap s' - 1) m' = Some (a + b)
-     else lookup (ap s' - 2) m' = Some 1 /\ lookup (ap s' - 1) m' = Some (a + b - 2 ^ 8)).
+  outputs (vm_run CFG (honest CFG) 0 code_u8_overflowing_add 200 0
+                  (init_st entry_u8_overflowing_add) (init_mem [RC0; a; b])) 3
+  = Some [Some (RC0 + 1);
+          Some (if a + b <? 2 ^ 8 then 0 else 1);
+          Some (if a + b <? 2 ^ 8 then a + b else a + b - 2 ^ 8)].
 Proof.
   intros a b Ha Hb.
-  pose proof (u8_overflowing_add_complete a b Ha Hb) as H.
-  unfold uarith_post, run_honest, uadd in H.
-  destruct H as (s' & m' & H1 & H2 & H3).
-  exists s', m'. split; [exact H1|]. split; [exact H2|].
-  destruct (a + b <? 2 ^ 8); exact H3.
+  pose proof (u8_overflowing_add_complete a b Ha Hb ltac:(discriminate)) as H.
+  unfold run_outputs, sp_uarith, uadd in H. cbn [fst snd] in H.
+  destruct (a + b <? 2 ^ 8); exact H.
 Qed.
 
 (* non-vacuity / what the objects look like: 200 + 100 on u8 *)
 Example C06_example :
-  outputs (run_honest code_u8_overflowing_add entry_u8_overflowing_add 64 [RC0; 200; 100]) 3
+  outputs (run_honest code_u8_overflowing_add entry_u8_overflowing_add 200 [RC0; 200; 100]) 3
     = Some [Some (RC0 + 1); Some 1; Some 44]
   /\ eval Ops.OAdd (U 8) [200; 100] = Some (Panic [0x75385f616464204f766572666c6f77] (* the felt of the short string `u8_add Overflow` *))
   /\ eval Ops.ORem (Ops.I 8) [-128; -1] = Some (Success [0]).
@@ -55,5 +147,51 @@ Print Assumptions C06_u8_overflowing_add_sound.
 Print Assumptions C06_u8_overflowing_add_complete.
 Print Assumptions C06_u8_overflowing_sub_sound.
 Print Assumptions C06_u8_overflowing_sub_complete.
+Print Assumptions C06_u8_eq_sound.
+Print Assumptions C06_u8_eq_complete.
+Print Assumptions C06_u8_wide_mul_sound.
+Print Assumptions C06_u8_wide_mul_complete.
+Print Assumptions C06_u8_safe_divmod_sound.
+Print Assumptions C06_u8_safe_divmod_complete.
+Print Assumptions C06_i8_overflowing_add_sound.
+Print Assumptions C06_i8_overflowing_add_complete.
+Print Assumptions C06_i8_overflowing_sub_sound.
+Print Assumptions C06_i8_overflowing_sub_complete.
+Print Assumptions C06_i8_eq_sound.
+Print Assumptions C06_i8_eq_complete.
+Print Assumptions C06_i8_wide_mul_sound.
+Print Assumptions C06_i8_wide_mul_complete.
+Print Assumptions C06_u8_is_zero_sound.
+Print Assumptions C06_u8_is_zero_complete.
+Print Assumptions C06_u8_to_felt252_sound.
+Print Assumptions C06_u8_to_felt252_complete.
+Print Assumptions C06_u8_sqrt_sound.
+Print Assumptions C06_u8_sqrt_complete.
+Print Assumptions C06_i8_to_felt252_sound.
+Print Assumptions C06_i8_to_felt252_complete.
+Print Assumptions C06_upcast_i8_i128_sound.
+Print Assumptions C06_upcast_i8_i128_complete.
+Print Assumptions C06_upcast_i8_i16_sound.
+Print Assumptions C06_upcast_i8_i16_complete.
+Print Assumptions C06_upcast_i8_i32_sound.
+Print Assumptions C06_upcast_i8_i32_complete.
+Print Assumptions C06_upcast_i8_i64_sound.
+Print Assumptions C06_upcast_i8_i64_complete.
+Print Assumptions C06_upcast_u8_i128_sound.
+Print Assumptions C06_upcast_u8_i128_complete.
+Print Assumptions C06_upcast_u8_i16_sound.
+Print Assumptions C06_upcast_u8_i16_complete.
+Print Assumptions C06_upcast_u8_i32_sound.
+Print Assumptions C06_upcast_u8_i32_complete.
+Print Assumptions C06_upcast_u8_i64_sound.
+Print Assumptions C06_upcast_u8_i64_complete.
+Print Assumptions C06_upcast_u8_u128_sound.
+Print Assumptions C06_upcast_u8_u128_complete.
+Print Assumptions C06_upcast_u8_u16_sound.
+Print Assumptions C06_upcast_u8_u16_complete.
+Print Assumptions C06_upcast_u8_u32_sound.
+Print Assumptions C06_upcast_u8_u32_complete.
+Print Assumptions C06_upcast_u8_u64_sound.
+Print Assumptions C06_upcast_u8_u64_complete.
 Print Assumptions C06_u8_overflowing_add_complete_unfolded.
 Print Assumptions C06_example.
